@@ -823,6 +823,25 @@ var swapOp = map[token.Token]token.Token{token.EQL: token.EQL, token.NEQ: token.
 func NormAtom(c ssa.Value, pol bool) string {
 	switch x := c.(type) {
 	case *ssa.BinOp:
+		// "which arm of the select was taken" is named by the arm's channel operation, not
+		// by its position: the order of the cases of a select has no meaning
+		if x.Op == token.EQL || x.Op == token.NEQ {
+			if ex, ok := x.X.(*ssa.Extract); ok && ex.Index == 0 {
+				if sel, ok := ex.Tuple.(*ssa.Select); ok {
+					if k, ok := ConstInt(x.Y); ok && int(k) >= 0 && int(k) < len(sel.States) {
+						st := sel.States[k]
+						a := "arm(<-" + Desc(st.Chan) + ")"
+						if st.Dir == types.SendOnly {
+							a = "arm(" + Desc(st.Chan) + "<-)"
+						}
+						if (x.Op == token.EQL) != pol {
+							a = "!" + a
+						}
+						return a
+					}
+				}
+			}
+		}
 		if _, ok := negOp[x.Op]; ok {
 			op := x.Op
 			if !pol {
